@@ -8,6 +8,7 @@ mod c02;
 mod c03;
 mod c04;
 mod c05;
+mod c06;
 mod c07;
 mod c08;
 mod c13;
@@ -24,6 +25,7 @@ fn table(id: &str) -> Option<(RunFn, ReplayFn)> {
         "C03" => (c03::run, c03::replay),
         "C04" => (c04::run, c04::replay),
         "C05" => (c05::run, c05::replay),
+        "C06" => (c06::run, c06::replay),
         "C07" => (c07::run, c07::replay),
         "C08" => (c08::run, c08::replay),
         "C13" => (c13::run, c13::replay),
